@@ -54,6 +54,7 @@ def all_configs(tier):
     out.append({"kind": "tf_sketchy", "s": f, "start": st})
     if st == 0:
       out.append({"kind": "tf_sketchy", "s": f, "start": st, "ekfac": True})
+      out.append({"kind": "tf_sketchy", "s": f, "start": st, "add_ggt": True})
   return out
 
 
@@ -214,7 +215,7 @@ def run_tf(c, seed, rec):
   if sk:
     so = second_order.Options(merge_dims=2, second_order_type=second_order.SecondOrderType.SKETCHY, shampoo_options=None,
                               sketchy_options=sketchy.Options(rank=2, update_freq=c["s"], second_moment_decay=0.9,
-                                                              ekfac_svd=bool(c.get("ekfac"))))
+                                                              ekfac_svd=bool(c.get("ekfac")), add_ggt=bool(c.get("add_ggt"))))
   else:
     so = second_order.Options(merge_dims=2, shampoo_options=tshampoo.Options(
         block_size=4, update_statistics_freq=c["s"], update_preconditioners_freq=c["p"], second_moment_decay=0.5))
@@ -255,6 +256,8 @@ def run_tf(c, seed, rec):
         out_ = []
         for leaf in jax.tree.leaves(st_.sketches, is_leaf=lambda x: isinstance(x, sketchy._AxisState)):
           out_.extend(np.asarray(getattr(leaf, f_)).tobytes() for f_ in ("eigvecs", "eigvals", "inv_eigvals", "tail", "inv_tail"))
+          if hasattr(leaf.ema_ggt, "shape"):
+            out_.append(np.asarray(leaf.ema_ggt).tobytes())      # the dense second-moment statistic kept with add_ggt
         return out_
       ch = sketch_fields(so0) != sketch_fields(so1)
       due = (t % c["s"] == 0)
